@@ -139,7 +139,9 @@ def run_orders(ctx, prop):
             for _ in range(3):
                 b_ = ext(b_.hash(), miner=2)
             cur = b_
-            top = (259 if prop == "C04" else 104) + rng.randrange(0, 4)      # (the full per-block digest is quadratic)
+            # (C04: the competing pairs sit at heights 500 and 501 — above CPython's small integers, at and next to a height
+            # that is a multiple of the checkpoint spacing; C03: the full per-block digest is quadratic, 104 blocks suffice)
+            top = 499 if prop == "C04" else 104 + rng.randrange(0, 4)
             while cur.height < top:
                 cur = ext(cur.hash(), n_tx=(1 if cur.height % 40 == 7 else 0))
             x1 = ext(cur.hash(), miner=0)
